@@ -15,6 +15,11 @@ func main() {
 		xlate.Spec{Pkg: "frac/lids", Recv: "Table", Name: "GetLastBlockIndexForTID"},
 		// GetMID / GetRID load ID blocks through caches: they stay uninterpreted (parameters p_GetMID, p_GetRID)
 		xlate.Spec{Pkg: "frac", Recv: "sealedIDsIndex", Name: "LessOrEqual", Oracles: []string{"sealedIDsIndex.GetMID", "sealedIDsIndex.GetRID"}},
+		// the length-prefixed fields of the token table / docs blocks (binary.Varint itself is standard library: not taken)
+		xlate.Spec{Pkg: "packer", Recv: "BytesPacker", Name: "PutUint32"},
+		xlate.Spec{Pkg: "packer", Recv: "BytesPacker", Name: "PutStringWithSize"},
+		xlate.Spec{Pkg: "packer", Recv: "BytesUnpacker", Name: "GetUint32"},
+		xlate.Spec{Pkg: "packer", Recv: "BytesUnpacker", Name: "GetBinary"},
 		xlate.Spec{Pkg: "frac", Recv: "DiskBlocksProducer", Name: "getTokensBlocksGenerator", As: "blockSize",
 			Stmts: []string{"blocksCount := fieldSize", "blockSize := max("}},
 	)
